@@ -87,6 +87,9 @@ type Slide struct {
 	SldID int `json:"sld_id,omitempty"`
 	// Missing: declared and related, but the part is not written.
 	Missing bool `json:"missing,omitempty"`
+	// Dangling (only with Missing): the slide list entry's r:id has no relationship at all - the other way a
+	// declared slide can be unreadable.
+	Dangling bool `json:"dangling,omitempty"`
 	// NoRels omits the slide's relationship part (only honoured when the slide
 	// has no notes; the slide then lacks its slideLayout relationship, which
 	// consumers that only read text do not need).
@@ -552,6 +555,9 @@ func (d Deck) Members() ([]zipw.Member, error) {
 			id = 256 + i
 		}
 		fmt.Fprintf(&pr, `<p:sldId id="%d" r:id="%s"/>`, id, ids[i])
+		if s.Missing && s.Dangling {
+			continue // declared, but neither the relationship nor the part exists
+		}
 		rels = append(rels, rel{ids[i], relBase + "slide", relTarget("ppt", d.PartName(i), s.AbsTarget)})
 	}
 	pr.WriteString(`</p:sldIdLst><p:sldSz cx="9144000" cy="6858000" type="screen4x3"/><p:notesSz cx="6858000" cy="9144000"/></p:presentation>`)
